@@ -19,7 +19,8 @@ META = {
              "minishard bits both > 0 or total > 64."
              ' Also: coordinates as NumPy scalars of every width, one coor'
              'dinate list advanced in place, routing_on_disk: the shard fi'
-             'le a chunk stored through ShardedFileAccessor lands in.'),
+             'le a chunk stored through ShardedFileAccessor lands in.'
+             " Round 12: positions off the lattice on several axes at once (all offset triples for chunk sizes <= 4)."),
     "exhaustive_parts": ["cmc_exhaustive: all grids up to 10^3 (quick) / "
                          "16^3 (thorough), all positions",
                          "routing_exhaustive: all (preshift, minishard, "
